@@ -17,7 +17,7 @@ ASSUMPTIONS = [
 CASES = {"quick": 5000, "thorough": 120000}
 MIN_CASES = {"quick": 1200, "thorough": 25000}
 REQUIRED_COUNTERS = ["predicate_vs_operation_checked", "refine_cells_should_split", "refine_cells_should_stay", "uniform_cells_judged",
-                     "grid_cells_judged", "grid_lines_inside_examined", "loop_rounds", "empty_map_cells", "at_threshold_cells"]
+                     "grid_cells_judged", "grid_lines_inside_examined", "loop_rounds", "empty_map_cells", "at_threshold_cells", "layout:one_percent"]
 
 
 def setup(ctx):
@@ -50,6 +50,7 @@ def check(case, ctx):
         ctx.violation("valid_allocation_rejected", f"constructor raised {type(a0).__name__}: {str(a0)[:300]} on {al['cells']}")
         return
     scale = max(al["ext"])
+    ctx.count("layout:" + al["layout"])
     for c in al["cells"]:
         if not c["a"]:
             ctx.count("empty_map_cells")
